@@ -50,4 +50,9 @@ def cases(seed, tier):
         out.append(case_info(PROPERTY, *s))
     out.append(case_info(PROPERTY, "full", 1, 1, 2, 3, zero_M=True))
     out.append(case_info(PROPERTY, "diag", 2, 1, 2, 2, zero_M=True))
+    for (s, t) in [(("full", 1, 2, 2, 3), "/hist"), (("identity", 1, 1, 2, 2), "/hist"), (("diag", 1, 3, 1, 2), "/hist/pdiag"),
+                   (("full", 1, 1, 3, 2), "/histp"), (("full", 1, 2, 2, 2), "/histp"), (("identity", 1, 2, 3, 3), "/histp"), (("diag", 1, 1, 2, 2), "/hists"), (("diag", 1, 1, 2, 3), "/giveL"), (("diag", 2, 1, 1, 3), "/bnone"),
+                   (("identitydiag", 1, 2, 3, 3), "/pdiag/giveL")]:
+        out.append(case_info(PROPERTY, *s, tag=t))
+    out.append(case_info(PROPERTY, "full", 1, 1, 2, 2, zero_M=True, tag="/histp"))
     return seeded(out, seed)
